@@ -273,7 +273,61 @@ def check_shipped(case):
             "sample": dict(case, mobile_atoms=n)}
 
 
+# ------------------------------------------------------------------ the same guarantees through Manager.align_molecules
+@st.composite
+def manager_route_case(draw):
+    from checks import c10_restraints as c10
+    case = draw(c10.manager_case())
+    case["bad"] = None
+    case["hydrogens"] = False
+    for o in case["opts"].values():
+        o.pop("ignore", None)
+    case["steps"] = draw(st.integers(1, 6))
+    return case
+
+
+def check_manager_route(case):
+    """Per-species options given to the Manager (in any dictionary order, validated beforehand or not) govern the
+    alignment of exactly that species: each species is judged with ITS selection of deformation types."""
+    from checks import c10_restraints as c10
+    from gaddlemaps import Manager  # noqa: F401
+    man, specs = c10.build_manager(case)
+    names = [sp["name"] for sp in case["species"]]
+    order = [names[i] for i in case.get("dict_order", range(len(names)))]
+    restr = {n: [tuple(r) for r in case["opts"][n]["restr"]] for n in order if "restr" in case["opts"][n]}
+    deform = {n: tuple(case["opts"][n]["deform"]) for n in reversed(order) if "deform" in case["opts"][n]}
+    before = {n: (positions(man.molecule_correspondence[n].start), positions(man.molecule_correspondence[n].end)) for n in names}
+    old = Alignment.STEPS_FACTOR
+    Alignment.STEPS_FACTOR = case["steps"]
+    np.random.seed(case["seed"] % 2 ** 32)
+    try:
+        with step_cap():
+            if case.get("route", "direct") == "direct":
+                lib("manager-align", man.align_molecules, restr or None, deform or None)
+            else:
+                parsed = lib("parse", man.parse_restrictions, restr or None)
+                if case["route"] == "preparsed-reordered":
+                    parsed = {n: parsed[n] for n in order if n in parsed}
+                lib("manager-align", man.align_molecules, parsed, deform or None, None, False)
+    finally:
+        Alignment.STEPS_FACTOR = old
+    rigid = 0
+    for sp in case["species"]:
+        n = sp["name"]
+        ali = man.molecule_correspondence[n]
+        sub = {"start": specs[(n, "start")], "end": specs[(n, "end")], "deform": case["opts"][n].get("deform"),
+               "relation": "manager"}
+        s0, e0 = before[n]
+        judge(sub, s0, e0, ali, "Manager route, species %s (%d -> %d atoms), options %r, dictionaries in order %r"
+              % (n, len(s0), len(e0), case["opts"][n], order))
+        rigid += sub["deform"] is not None and 2 not in sub["deform"]
+    return {"nontrivial": rigid >= 1 and len(names) >= 2,
+            "classes": ["route:" + case.get("route", "direct"), "species:%d" % len(names)],
+            "sample": {"species": case["species"], "opts": case["opts"], "route": case.get("route")}}
+
+
 SUBCHECKS = [
+    Sub("manager", check_manager_route, strategy=lambda tier: manager_route_case(), quick=160, thorough=6000),
     Sub("generated", check, strategy=lambda tier: case_strategy(tier), quick=1000, thorough=40000,
         min_share={"relation:start-smaller": 0.2, "relation:equal": 0.1, "relation:start-larger": 0.1,
                    "deformed": 0.15, "collinear-neighbours": 0.04}),
